@@ -126,6 +126,48 @@ TYPE_EXPRS = TYPE_EXPRS + PEP585_EXPRS  # builtin generic aliases are hashed by 
 TYPE_NS = {"ty": ty, "Path": Path}
 
 
+LAYOUTS = ["C", "F", "T", "strided", "Fstrided"]
+
+
+def with_layout(a, layout: str):
+    """an array EQUAL to `a` (same dtype, shape, elements) with the requested memory layout:
+    C = C-contiguous copy; F = Fortran-contiguous (asfortranarray); T = transposed view of C-contiguous data;
+    strided = every other element of a twice as wide C buffer (non-contiguous view); Fstrided = a strided view of
+    column-major data.  0-d arrays have one layout."""
+    import numpy as np
+
+    if a.ndim == 0 or layout == "C":
+        return a.copy()
+    if layout == "F":
+        return np.asfortranarray(a)
+    if layout == "T":
+        return np.ascontiguousarray(a.T).T
+    if layout == "strided":
+        big = np.zeros(a.shape[:-1] + (2 * a.shape[-1],), dtype=a.dtype)
+        v = big[..., ::2]
+        v[...] = a
+        return v
+    if layout == "Fstrided":
+        big = np.zeros((2 * a.shape[0],) + a.shape[1:], dtype=a.dtype, order="F")
+        v = big[::2]
+        v[...] = a
+        return v
+    raise ValueError(layout)
+
+
+def logical_bytes(o) -> bytes:
+    """the elements of an array in logical (row-major index) order, packed element by element — deliberately NOT through
+    ndarray.tobytes(order=...), the code path of the implementation; cross-checked against a C-contiguous copy"""
+    import numpy as np
+
+    isz = o.dtype.itemsize  # numpy.str_ / numpy.bytes_ elements come back without their zero padding
+    el = b"".join(e.tobytes().ljust(isz, b"\0") for e in o.flat) if o.ndim else o[()].tobytes().ljust(isz, b"\0")
+    chk = np.ascontiguousarray(o).tobytes()
+    if el != chk:
+        raise AssertionError("element-wise packing and ascontiguousarray disagree")
+    return el
+
+
 class Unsupported(Exception):
     """the value is outside what the Lean model covers (the implementation is still checked against the oracle)"""
 
@@ -199,7 +241,7 @@ class Builder:
             import numpy as np
 
             a = np.frombuffer(bytes.fromhex(s["hex"]), dtype=np.dtype(s["dtype"])).reshape(tuple(s["shape"]))
-            return a.copy()
+            return with_layout(a, s.get("layout", "C"))
         if k == "npscalar":
             import numpy as np
 
@@ -370,7 +412,7 @@ class Caser:
                 "cls": f"{t.__module__}{t.__name__}",
                 "dtype": str(o.dtype),
                 "shape": repr(tuple(int(n) for n in o.shape)),
-                "hex": o.tobytes(order="C").hex(),
+                "hex": (logical_bytes(o) if isinstance(o, np.ndarray) else o.tobytes()).hex(),
             }
         if isinstance(o, (type, ty._GenericAlias, ty._SpecialForm, types.UnionType, types.GenericAlias)):
             return self.type_case(o)
@@ -840,7 +882,7 @@ def gen_ndarray(rng):
     import numpy as np
 
     dt = rng.choice(["int64", "float64", "int32", "uint8", "float32", "bool", "complex128", "<U2", "int16"])
-    shape = rng.choice([(0,), (1,), (2,), (3,), (6,), (2, 3), (3, 2), (1, 6), (6, 1), (2, 1, 3), ()])
+    shape = rng.choice([(0,), (1,), (2,), (3,), (6,), (2, 3), (3, 2), (1, 6), (6, 1), (2, 1, 3), (), (2, 2), (3, 3), (2, 3, 2)])
     n = int(np.prod(shape)) if shape else 1
     size = np.dtype(dt).itemsize
     if dt == "<U2":
@@ -853,7 +895,40 @@ def gen_ndarray(rng):
         # numpy.str_ is a str subclass and reaches the str serializer: string *scalars* are outside the grammar
         return {"k": "npscalar", "dtype": dt, "hex": data[:size].hex()} if (rng.random() < 0.5 and dt != "<U2") else {
             "k": "ndarray", "dtype": dt, "shape": [], "hex": data[:size].hex()}  # fmt: skip
-    return {"k": "ndarray", "dtype": dt, "shape": list(shape), "hex": data.hex()}
+    return {"k": "ndarray", "dtype": dt, "shape": list(shape), "hex": data.hex(), "layout": rng.choice(LAYOUTS)}
+
+
+def raw_buffer_twin(n):
+    """For an ndarray spec n (ndim >= 2): (A, B) with the same dtype and shape and the SAME raw memory buffer but different
+    contents — A = n stored Fortran-contiguous, B = the C-contiguous array whose row-major bytes are A's column-major bytes
+    (`arange(6).reshape(2,3).T` vs `arange(6).reshape(3,2)`; `a.T` vs `a` for square a).  None if the contents coincide."""
+    import numpy as np
+
+    if len(n["shape"]) < 2:
+        return None
+    a = np.frombuffer(bytes.fromhex(n["hex"]), dtype=np.dtype(n["dtype"])).reshape(tuple(n["shape"]))
+    fbytes = np.ascontiguousarray(a.T).tobytes()  # column-major bytes of a
+    if fbytes == bytes.fromhex(n["hex"]):
+        return None
+    return {**n, "layout": "F"}, {**n, "hex": fbytes.hex(), "layout": "C"}
+
+
+def gen_layout_pair(rng, kind: str):
+    """(A, B, same): kind 'layout' = equal content in two different memory layouts (must hash EQUAL);
+    kind 'raw' = different contents with an identical raw buffer (must hash DIFFERENT)."""
+    import numpy as np
+
+    for _ in range(200):
+        n = gen_ndarray(rng)
+        if n["k"] != "ndarray" or not n["shape"] or int(np.prod(n["shape"])) == 0:
+            continue
+        if kind == "layout":
+            l1, l2 = rng.sample(LAYOUTS, 2)
+            return {**n, "layout": l1}, {**n, "layout": l2}, True
+        tw = raw_buffer_twin(n)
+        if tw is not None:
+            return tw[0], tw[1], False
+    raise RuntimeError("no array pair found")
 
 
 FUNC_BODIES = [
@@ -1161,6 +1236,8 @@ def mutate(rng, s):
             if rng.random() < 0.5:
                 return ({**n, "name": "g" if n.get("name", "f") == "f" else "f"}, "same:function-name")
             return ({**n, "annots": {n["params"][0]: "float"}}, "same:function-annotation")
+        if k == "ndarray" and len(n["shape"]) >= 1:
+            return ({**n, "layout": rng.choice([l for l in LAYOUTS if l != n.get("layout", "C")])}, "same:array-layout")
         if k == "use":
             return None
         return None
